@@ -569,8 +569,17 @@ func (tree *Rtree) nearestNeighbors(k int, p geom.Point, n *node,
 		}
 	} else {
 		branches, branchDists := sortEntries(p, n.entries)
-		branches = pruneEntries(p, branches, branchDists)
-		for _, e := range branches {
+		if k == 1 {
+			// MINMAXDIST pruning is only valid when a single neighbor is wanted.
+			// (The pruned entries are a prefix of the sorted ones.)
+			branches = pruneEntries(p, branches, branchDists)
+		}
+		for i, e := range branches {
+			if k > 0 && math.Sqrt(branchDists[i]) > dists[k-1] {
+				// Nothing below e (or below the entries after it) can be
+				// closer than the k nearest objects found so far.
+				break
+			}
 			nearest, dists = tree.nearestNeighbors(k, p, e.child, dists, nearest)
 		}
 	}
